@@ -298,6 +298,10 @@ def theorem_of(l):
         return "traceql_every_scan_bounded (TraceqlPlan.plan)"
     if ep in TQ_EPS:
         return "traceql_estimate_every_scan_bounded (ScansTq.TE.plan_eval)"
+    if ep in ("tempo_search_tags", "tempo_search_plain"):
+        return "tempo_search_every_scan_bounded (ScansTempo.search_query)"
+    if ep == "tempo_trace":
+        return "tempo_trace_every_scan_bounded (ScansTempo.trace_query)"
     if ep in ("tempo_tags_v2", "tempo_values_v2"):
         return "traceql_all_tags_every_scan_bounded (ScansTq.TE.all_tags)"
     return None
@@ -351,6 +355,7 @@ def run_scan(ck):
             run_estimate_tie(ck, lines)
             run_label_tie(ck, lines)
             run_prof_tie(ck, lines)
+            run_tempo_tie(ck, lines)
         if name == "sweep":
             # every endpoint must have been exercised: a request that stops answering with SQL is a silent loss of coverage
             by_ep = {}
@@ -413,8 +418,9 @@ def run_scan(ck):
                             "tags and TraceQL, Pyroscope types/labels/values/merge/series/stats/analyze/render-diff) x 5 process time zones x both table "
                             "layouts x 12 fixed windows (midnight, month/year end, leap day, first half hour, sub-second) + seeded random windows; "
                             "non-trivial = statement with at least one base-table read, distinct by SQL text; every statement is judged by the oracle; the builders of the "
-                            "LogQL, label-values / series, Prometheus Select and TraceQL statements are in addition under planner theorems for all inputs "
-                            "(extra.proved_vs_judged has the measured split); the rest (labels, Tempo v1 search / tags / trace by id, Pyroscope) is judged per statement only. ")
+                            "LogQL, label names / values / series, Prometheus Select, TraceQL (search, tags, values, complexity estimate), Tempo v1 search / trace by id and "
+                            "every Pyroscope statement are in addition under theorems for all inputs (extra.proved_vs_judged has the measured split); judged per statement "
+                            "only: the window-less Tempo v1 tag statements, trace by id without window and profile stats (recorded findings). ")
     ck.extra["statements_per_endpoint"] = hist
     ck.extra["proved_vs_judged"] = split
     ck.extra["statements_checked_by_oracle"] = total
@@ -749,6 +755,56 @@ def run_prof_tie(ck, lines):
     ck.coverage["evaluations"] += len(cases) + len(pt)
 
 
+# ---------------------------------------------------------------- Tempo v1: statement model vs recorded text
+TV_TAGS = '[{| tg_key := "a"; tg_op := TgEq; tg_val := "b" |}; {| tg_key := "c"; tg_op := TgEq; tg_val := "d" |}]'
+TV_EPS = {"tempo_trace": 'TTrace "%s" true' % "0123456789abcdef0123456789abcdef",
+          "tempo_trace_nowindow": 'TTrace "%s" false' % "0123456789abcdef0123456789abcdef",
+          "tempo_tags": "TTags", "tempo_tag_values": 'TValues "service.name"',
+          "tempo_search_tags": "TSearch %s 20 1000000 0 %%s" % TV_TAGS, "tempo_search_plain": "TSearch [] 20 0 0 %s"}
+
+
+def run_tempo_tie(ck, lines):
+    """text of the Tempo v1 statement model (ScansTempo.v, under tempo_search_every_scan_bounded / tempo_trace_every_scan_bounded)
+    = recorded statement, byte for byte"""
+    cases, seen = [], set()
+    for l in lines:
+        if l["kind"] != "stmt" or l["ep"] not in TV_EPS or l["zone"] not in (0, -43200):
+            continue
+        key = (l["ep"], l["cluster"], l["schema"], l["class"])
+        if key in seen or len([k for k in seen if k[:3] == key[:3]]) >= 3:
+            continue
+        seen.add(key)
+        cases.append(l)
+    if not cases:
+        ck.obligation("Tempo v1 statements of the sweep compared with the model", False, "no statement found")
+        return
+    items = []
+    for i, l in enumerate(cases):
+        req = TV_EPS[l["ep"]]
+        if "%s" in req:
+            req = req % ("true" if l["schema"] != "old" else "false")
+        items.append('{| tv_id := %d; tv_db := "verif"; tv_cluster := %s; tv_from := %d; tv_to := %d; tv_req := %s; tv_sql := %s |}' % (
+            i, "true" if l["cluster"] else "false", l["from_ns"], l["to_ns"], req, coq_string(l["sql"])))
+    txt = ("From Coq Require Import List ZArith NArith String Ascii Bool.\n"
+           "From Qryn Require Import lib.Strs model.Sql model.Scans model.ScansTempo.\n"
+           "Import ListNotations.\nOpen Scope string_scope.\nOpen Scope Z_scope.\n"
+           "Definition cases : list tv1_case := [\n " + ";\n ".join(items) + "].\n"
+           "Definition M := Eval vm_compute in tv1_mismatches cases.\nPrint M.\n")
+    rc, out = ck.coq_eval("C13_tempo", txt, timeout=600)
+    flat = " ".join((out or "").split())
+    m = re.search(r"M = \[(.*?)\]\s*: list Z", flat)
+    if rc != 0 or not m:
+        ck.obligation("Tempo v1 statement model evaluated on the requests of the sweep", False, (out or "")[-1500:])
+        return
+    bad = [int(x) for x in re.findall(r"-?\d+", m.group(1))]
+    eps = {c["ep"] for c in cases}
+    ck.obligation("correspondence: render (search_query / trace_query / tags_query / values_query) = recorded Tempo v1 statement, byte for byte, on %d statements "
+                  "(%d endpoints, both layouts)" % (len(cases), len(eps)), not bad and len(eps) == len(TV_EPS),
+                  "; ".join("%s %s %s: %.400s" % (cases[i]["ep"], "cluster" if cases[i]["cluster"] else "single", cases[i]["class"], cases[i]["sql"]) for i in bad[:3]))
+    ck.extra["tempo_v1_model_ties"] = len(cases)
+    ck.coverage["evaluations"] += len(cases)
+
+
 # ---------------------------------------------------------------- the stored day of trace attribute rows
 def run_spandate(ck):
     if not ck.go_build("spandate"):
@@ -847,9 +903,8 @@ def run(ck):
         "is the reading behind scan_bounded; window_semantic states it over an abstract row predicate",
         "C13: harness/sqlparse and ocaml/scans_driver.ml are untrusted (every tree is validated: render tree = statement text, wf_parsed); "
         "the normalisation `as ((` -> `as (` of redundant parentheses around a WITH body (checks/c13.py normalize) is trusted",
-        "C13: statements of builders not transcribed in Coq (Tempo v1 search / tags / trace by id, Pyroscope planners around the stream selector, TraceQL "
-        "complexity estimate) are checked per recorded statement (sampling of requests), not proved per program; the enumerators scans / tq_scans and the "
-        "conjunct translation cv are the definition of 'every read of a statement'",
+        "C13: the enumerators scans / tq_scans / presult_scans and the conjunct translation cv are the definition of 'every read of a statement'; the only "
+        "statement builder left without a Coq model is ProfService.ProfileStats (no window in its API: recorded finding), judged per recorded statement",
         "C13: stored dates: trace attribute rows tied to the real write path by harness spandate (32 zones); series rows by C04 (fix 433b3ba); "
         "profiles_series dates are computed by a materialized view inside ClickHouse (not modelled)",
     ]
